@@ -100,11 +100,21 @@ class RdfBuilder:
         if k < 0.65:
             return r.choice([True, False])
         if k < 0.75:
-            return datetime.datetime(r.choice([1970, 2012, 2024]), r.randint(1, 12), r.randint(1, 28), r.randint(0, 23), r.randint(0, 59),
-                                     r.randint(0, 59), r.choice([0, 0, 250000]))
+            return self.zone(datetime.datetime(r.choice([1970, 2012, 2024]), r.randint(1, 12), r.randint(1, 28), r.randint(0, 23),
+                                               r.randint(0, 59), r.randint(0, 59), r.choice([0, 0, 250000, 5000, 42])))
         if k < 0.9:
             return self.name()
         return Identifier("http://example.org/id/" + str(r.randint(0, 9)))
+
+    def zone(self, t):
+        """naive, UTC, or at an offset: whole and fractional hours, east and west"""
+        r = self.g.rng
+        k = r.random()
+        if k < 0.45:
+            return t
+        if k < 0.6:
+            return t.replace(tzinfo=datetime.timezone.utc)
+        return t.replace(tzinfo=datetime.timezone(datetime.timedelta(minutes=r.choice([60, -300, 330, 765, -90, -210, -570, 345]))))
 
     def extras(self, relation):
         r = self.g.rng
@@ -142,9 +152,9 @@ class RdfBuilder:
                 attrs = []
                 if kind == "Activity":
                     if r.random() < 0.4:
-                        attrs.append(("prov:startTime", datetime.datetime(2012, 1, 1, r.randint(0, 23))))
+                        attrs.append(("prov:startTime", self.zone(datetime.datetime(2012, 1, 1, r.randint(0, 23)))))
                     if r.random() < 0.4:
-                        attrs.append(("prov:endTime", datetime.datetime(2013, 1, 1, r.randint(0, 23))))
+                        attrs.append(("prov:endTime", self.zone(datetime.datetime(2013, 1, 1, r.randint(0, 23)))))
                 w.new_record(c, kind, ident, attrs + ex)
             else:
                 kind = r.choice(REL if self.in_domain else REL + REL_WIDE)
@@ -159,7 +169,7 @@ class RdfBuilder:
                             args.append((f, self.name()))
                         elif f in PROV_ATTRIBUTE_LITERALS:
                             if r.random() < 0.4:
-                                args.append((f, datetime.datetime(2014, r.randint(1, 12), 1, r.randint(0, 23))))
+                                args.append((f, self.zone(datetime.datetime(2014, r.randint(1, 12), 1, r.randint(0, 23)))))
                         elif r.random() < 0.4:
                             args.append((f, self.name()))
                 ex = self.extras(True)
